@@ -2,7 +2,7 @@ SPECIFICATION Spec
 CONSTANTS
   MaxSegs = 2
   MaxAtoms = 1
-  Atoms = {"word", "lflageq", "rout"}
+  Atoms = {"word", "lflageq", "dash"}
   MCSemis = {"none", "before", "after", "both"}
   MCBlocks = {"if", "def"}
   Deviations = {}
